@@ -59,6 +59,10 @@ where
     }
 
     let live_for = live_until_ledger - current_ledger;
+    // Drop any earlier offer first: `set` on an existing temporary entry keeps
+    // its previous (possibly longer) lifetime and `extend_ttl` never shortens
+    // it, so a replaced offer would otherwise lend its deadline to the new one.
+    e.storage().temporary().remove(pending_key);
     e.storage().temporary().set(pending_key, new);
     e.storage().temporary().extend_ttl(pending_key, live_for, live_for);
 }
